@@ -84,13 +84,17 @@ def tri_edges(nodes, d):
 _GL = {}
 
 
-def gl_length(nodes_f, panels):
+def gl_length(nodes_f, panels, hodo=None):
     """composite Gauss-Legendre (32 points) of |B'(s)| in binary64 with a stable de Casteljau"""
     if 32 not in _GL:
         _GL[32] = np.polynomial.legendre.leggauss(32)
     xg, wg = _GL[32]
-    n = nodes_f.shape[1] - 1
-    d = n * (nodes_f[:, 1:] - nodes_f[:, :-1])
+    if hodo is None:
+        n = nodes_f.shape[1] - 1
+        d = n * (nodes_f[:, 1:] - nodes_f[:, :-1])
+    else:       # the caller supplies the (exactly computed) hodograph net
+        n = hodo.shape[1]
+        d = hodo
     total = 0.0
     edges = np.linspace(0.0, 1.0, panels + 1)
     s = np.concatenate([0.5 * (b - a) * xg + 0.5 * (a + b) for a, b in zip(edges[:-1], edges[1:])])
@@ -106,6 +110,206 @@ def ref_length(nodes_f):
     a = gl_length(nodes_f, 64)
     b = gl_length(nodes_f, 256)
     return b, abs(a - b)
+
+
+# ------------------------------------------------------------------------------------------------------------------
+# curves FAR FROM THE ORIGIN (compared with their size).  The defining integral of |B'(s)| only sees the DIFFERENCES of
+# the control points, so the length cannot depend on where the curve sits.  The oracle below therefore starts from the
+# EXACT hodograph net n (P[j+1] - P[j]) (rationals of the binary64 input), never from absolute coordinates.
+def exact_hodograph(nodes):
+    """exact hodograph control net (Fractions) of a net given as rows of Fractions"""
+    n = len(nodes[0]) - 1
+    return [[n * (r[j + 1] - r[j]) for j in range(n)] for r in nodes]
+
+
+def ref_length_hodo(hod, panels=64):
+    """(reference integral of |B'|, self-estimated error) from an exact hodograph net"""
+    d = np.array([[float(x) for x in r] for r in hod], dtype=np.float64)
+    a = gl_length(None, panels, hodo=d)
+    b = gl_length(None, 4 * panels, hodo=d)
+    return b, abs(a - b)
+
+
+def norm_fr(vec):
+    return math.sqrt(float(sum(Fr(x) * Fr(x) for x in vec)))
+
+
+def chord_polygon_exact(nodes):
+    """chord and control-polygon length from exact differences"""
+    nn = len(nodes[0])
+    chord = norm_fr([r[-1] - r[0] for r in nodes])
+    poly = sum(norm_fr([r[j + 1] - r[j] for r in nodes]) for j in range(nn - 1))
+    return chord, poly
+
+
+def far_base(rnd, fam, n, dim):
+    """control net (rows of Fractions) of a degree-n curve of moderate size near the origin"""
+    if fam == "generic":        # advancing, really curved, grid 2^-4
+        rows = []
+        for d in range(dim):
+            x, row = Fr(rnd.randint(-8, 8), 16), []
+            for _ in range(n + 1):
+                row.append(x)
+                x += Fr(rnd.randint(-4, 16) if d == 0 else rnd.randint(-12, 12), 16)
+            rows.append(row)
+        return rows
+    if fam == "shallow":        # nearly straight: bend 2^-e of the step (road / rail geometry)
+        e = rnd.randint(2, 12)
+        rows = [[Fr(j) + Fr(rnd.randint(-2, 2), 16) for j in range(n + 1)]]
+        for d in range(1, dim):
+            rows.append([Fr(0)] + [Fr(rnd.choice([-4, -3, -2, -1, 1, 2, 3, 4]), 2 ** e) for _ in range(n - 1)] + [Fr(0)])
+        return rows
+    if fam == "near-elevated":  # a degree-(n-1) curve, degree elevated, plus a small genuine degree-n part
+        low = far_base(rnd, "generic", n - 1, dim)
+        rows = [X.elevate_exact(r) for r in low]
+        e = rnd.randint(3, 14)
+        j = rnd.randint(1, n - 1) if n >= 2 else 0
+        for d in range(dim):
+            rows[d][j] += Fr(rnd.randint(-8, 8), 2 ** e)
+        rows[rnd.randrange(dim)][j] += Fr(1, 2 ** e)
+        return rows
+    if fam == "straight":       # collinear nodes, monotone: a line in disguise, length = chord
+        t = sorted(Fr(rnd.randint(0, 64), 16) for _ in range(n + 1))
+        if t[0] == t[-1]:
+            t[-1] += 1
+        direction = [rnd.choice([-3, -2, -1, 1, 2, 3]) for _ in range(dim)]
+        return [[c * x for x in t] for c in direction]
+    raise ValueError(fam)
+
+
+def far_offset(rnd, dim, k, pattern):
+    big = 2 ** k
+    if pattern == "all":
+        return [Fr(big)] * dim
+    if pattern == "one":
+        off = [Fr(rnd.randint(-3, 3)) for _ in range(dim)]
+        off[rnd.randrange(dim)] = Fr(big)
+        return off
+    if pattern == "mixed":
+        return [Fr(rnd.choice([-1, 1]) * rnd.choice([big, 3 * big // 2, 5 * big // 4, big + 12345])) for _ in range(dim)]
+    raise ValueError(pattern)
+
+
+def far_case(rnd, fam, n, dim, offset, scale_exp=0):
+    """keyword arguments of one 'length-far' case: the library sees base + offset rounded to binary64"""
+    for _ in range(20):
+        base = far_base(rnd, fam, n, dim)
+        ref = ref_length_hodo(exact_hodograph(base))[0] if n >= 1 else 0.0
+        if ref > 0:
+            break
+    else:
+        return None
+    m = scale_exp
+    while ref * 2.0 ** m < 1.0:     # keep away from the absolute-tolerance regime of QUADPACK (finding F-V)
+        m += 1
+    base = [[x * 2 ** m for x in r] for r in base]
+    offset = [o * 2 ** scale_exp for o in offset]
+    nodes = [[Fr(float(x + o)) for x in r] for r, o in zip(base, offset)]
+    kw = {"nodes": nodes, "family": "far-" + fam, "offset": offset}
+    if all(x - o == b for r, o, br in zip(nodes, offset, base) for x, b in zip(r, br)):
+        kw["base"] = base           # the translation is exact: the lengths of base and nodes are the same number
+    return kw
+
+
+def far_cases(rnd, thorough):
+    out = []
+    degrees = (1, 2, 3, 4, 5, 6, 9) if not thorough else tuple(range(1, 13))
+    ks = (14, 20, 23, 25, 26, 27, 28, 30, 33, 38, 44) if not thorough else tuple(range(10, 47))
+    for n in degrees:
+        for fam in ("generic", "shallow", "near-elevated", "straight"):
+            if fam in ("shallow", "near-elevated") and n < 2:
+                continue
+            for k in ks:
+                for _ in range(1 if not thorough else 3):
+                    dim = rnd.choice([2, 2, 3, 4])
+                    kw = far_case(rnd, fam, n, dim, far_offset(rnd, dim, k, rnd.choice(["all", "one", "mixed"])),
+                                  rnd.choice([0, 0, 0, 3, 7]))
+                    if kw:
+                        out.append(kw)
+    # map / survey coordinates (decimal offsets): UTM-like eastings and northings, 1e7, ECEF-like metres in 3-D
+    for n in (2, 3, 4) if not thorough else (2, 3, 4, 5, 6):
+        for off in ([500000, 5000000], [10 ** 7, 10 ** 7], [4027894, 307046, 4919499], [-(10 ** 8), 10 ** 6]):
+            for fam in ("generic", "shallow", "near-elevated"):
+                kw = far_case(rnd, fam, n, len(off), [Fr(o) for o in off])
+                if kw:
+                    out.append(kw)
+    return out
+
+
+def check_length_far(bezier, CH, res, rc, kw, cfg, have_scipy):
+    """Curve.length / compute_length of a curve whose coordinates are large compared with its extent.
+
+    spec: the integral of |B'(s)| with B' from the EXACT differences of the binary64 control points (composite
+    Gauss-Legendre with self-estimated error), the exact chord and control polygon, additivity over the exact halves,
+    and - when the translation is exact - the length of the same curve moved to the origin."""
+    nodes = kw["nodes"]
+    nn, dim = len(nodes[0]), len(nodes)
+    if nn >= 3 and cfg == "pure" and not have_scipy:
+        res.skip("pure compute_length needs SciPy (absent in this interpreter)")
+        return
+    arr = C.farr(nodes)
+    if [[Fr(float(x)) for x in r] for r in arr.tolist()] != nodes:
+        raise AssertionError("length-far: the case's nodes are not binary64 numbers")
+    hod = exact_hodograph(nodes)
+    chord, polygon = chord_polygon_exact(nodes)
+    size = max(float(max(r) - min(r)) for r in nodes)
+    far = max(abs(float(x)) for r in nodes for x in r)
+    where = "degree %d, %d-D, %s, coordinates up to %.6g = %.3g x the extent %.6g" % (nn - 1, dim, kw["family"], far, far / size, size)
+    got = float(CH.compute_length(arr))
+    crv = bezier.Curve(arr, nn - 1)
+    got_api = float(crv.length)
+    if got_api != got and not (math.isnan(got) and math.isnan(got_api)):
+        res.failure("length-api-differs", "Curve.length %r != compute_length %r" % (got_api, got), rc)
+    if nn == 2:
+        if not abs(got - chord) <= 8 * float(C.U) * chord:
+            res.failure("length-wrong:far-from-origin", "length of a segment (%s): %r, exact %r" % (where, got, chord), rc)
+        return
+    ref, err = ref_length_hodo(hod)
+    if err > 2.0 ** -30 * ref:
+        res.skip("reference quadrature not converged (family %s)" % kw["family"])
+        return
+    tol = 2.0 ** -24 * ref + err
+
+    def wrong(val, target, slack=0.0):
+        return not abs(val - target) <= tol + slack     # also true for NaN
+
+    if wrong(got, ref):
+        res.failure("length-wrong:far-from-origin", "compute_length (%s): %r, but the integral of |B'| over [0,1] is %r (rel %.3e; chord %r, "
+                    "control polygon %r)" % (where, got, ref, abs(got - ref) / ref, chord, polygon), rc)
+    if not (chord * (1 - 2.0 ** -24) <= got <= polygon * (1 + 2.0 ** -24)):
+        res.failure("length-outside-bounds:far-from-origin", "length %r not in [chord %r, control polygon %r] (%s)" % (got, chord, polygon, where), rc)
+    if "base" in kw:
+        got0 = float(CH.compute_length(C.farr(kw["base"])))
+        if not abs(got - got0) <= 2.0 ** -23 * ref + 2 * err:
+            res.failure("length-not-translation-invariant", "compute_length %r after the EXACT translation by %s, %r before (%s; integral of |B'| = %r)" %
+                        (got, [str(o) for o in kw["offset"]], got0, where, ref), rc)
+    # additivity over subdivision.  The halves computed by the library carry the rounding of coordinates of this magnitude;
+    # |length(P + E) - length(P)| <= control polygon of the perturbation net E, computed exactly - zero when the halves are exact
+    exact_l, exact_r = [], []
+    for r in nodes:     # one exact de Casteljau split per coordinate
+        lo, hi = X._split(r, Fr(1, 2))
+        exact_l.append(lo)
+        exact_r.append(hi)
+    left, right = CH.subdivide_nodes(arr)
+    slack = 0.0
+    for h, ex in ((left, exact_l), (right, exact_r)):
+        e_net = [[Fr(float(v)) - w for v, w in zip(hr, er)] for hr, er in zip(h.tolist(), ex)]
+        slack += chord_polygon_exact(e_net)[1]
+    parts = float(CH.compute_length(left)) + float(CH.compute_length(right))
+    if not abs(parts - got) <= 2.0 ** -23 * ref + 2 * slack * (1 + 2.0 ** -20):
+        res.failure("length-not-additive:far-from-origin", "length %r vs sum over the two halves %r (%s; integral of |B'| = %r)" %
+                    (got, parts, where, ref), rc)
+    # the public route: Curve.subdivide() and the length of each half against the integral for the half's own control net
+    for lab, piece in zip(("left", "right"), crv.subdivide()):
+        pn = [[Fr(float(v)) for v in r] for r in np.asarray(piece.nodes).tolist()]
+        pref, perr = ref_length_hodo(exact_hodograph(pn), 32)     # half the interval: the same panel width
+        if perr > 2.0 ** -30 * max(pref, 2.0 ** -20) or pref < 0.25:
+            continue
+        gp = float(piece.length)
+        if not abs(gp - pref) <= 2.0 ** -24 * pref + perr + 2.0 ** -26:
+            res.failure("length-wrong:far-from-origin", "Curve.length of the %s half returned by subdivide() (%s): %r, but the integral of |B'| for "
+                        "the half's control net is %r" % (lab, where, gp, pref), rc)
+            break
 
 
 def main():
@@ -137,6 +341,10 @@ def main():
             kw["edges"] = [[[Fr(x) for x in r] for r in e] for e in kw["edges"]]
         if "nodes" in kw:
             kw["nodes"] = [[Fr(x) for x in r] for r in kw["nodes"]]
+        if "base" in kw:
+            kw["base"] = [[Fr(x) for x in r] for r in kw["base"]]
+        if "offset" in kw:
+            kw["offset"] = [Fr(x) for x in kw["offset"]]
         add(rep["kind"], **kw)
     else:
         # ---- area: complete quadratic-form table on pairs of unit nets (x = scale*e_i, y = e_j): exact
@@ -193,6 +401,9 @@ def main():
             for _ in range(6 if not thorough else 40):
                 add("length", nodes=G.int_net(rnd, 2, n + 1, 4), family="wiggly")
         add("length", nodes=[[Fr(3)], [Fr(4)]], family="degree0")
+        # ---- length of curves far from the origin compared with their size (translation must not matter)
+        for kw in far_cases(rnd, thorough):
+            add("length-far", **kw)
 
     # ---- model queries
     drv = C.Driver()
@@ -208,13 +419,13 @@ def main():
             midx.append(q)
         else:
             midx.append(None)
-    replies = drv.run()
+    replies = drv.run() if drv.lines else []     # (a replayed case may have no model query)
 
     def area_call(edges):
         return TH.compute_area(tuple(C.farr(e) for e in edges))
 
     for (kind, kw), mi in zip(cases, midx):
-        jkw = {k: (C.jfr(v) if k in ("edges", "nodes") else v) for k, v in kw.items()}
+        jkw = {k: (C.jfr(v) if k in ("edges", "nodes", "base", "offset") else v) for k, v in kw.items()}
         rc = {"kind": kind, "kw": jkw}
         res.count((kind, str(jkw)), kind=kind, regime=kw.get("regime", "T"), family=kw.get("family", "-"))
         res.sample({"kind": kind, "kw": {k: (v if k not in ("edges", "nodes") else str(v)[:120]) for k, v in jkw.items()}})
@@ -355,6 +566,8 @@ def main():
                                             "computed from its own control net %r, chord %r, control polygon %r" %
                                             (lab, nn - 1, got_d, own, pchord, ppoly), rc)
                                 break
+            elif kind == "length-far":
+                check_length_far(bezier, CH, res, rc, kw, cfg, have_scipy)
         except Exception as exc:  # noqa
             res.failure("raised:%s:%s" % (kind, type(exc).__name__), "%s raised %r" % (kind, exc), rc)
     res.emit()
